@@ -37,7 +37,8 @@ RULE = ("transition-only models (2-5 states, 1-5 events of 1-3 T transitions, al
         "list / tuple / array grid of float or int dtype (some starting after t0, some extending 10x past the horizon); a third of the "
         "calls on a population scaled by 20; exact calls keep whatever pre_tau the previous call left; with and without full_output; "
         "row sums of every returned array are taken after the call AND again after all later calls; the caller's arrays and "
-        "model.initial_state are compared with the harness's own copies; "
+        "model.initial_state are compared with the harness's own copies (a side effect there is a tag and a broken correspondence, "
+        "not a violation: C10 states totals); "
         "non-trivial = at least one event fired in some path or a non-zero ODE component")
 ASSUMPTIONS = ["deterministic conservation is checked to 1e-6 relative (scipy odeint tolerance assumed)",
                "gridded tau-leap rows are float interpolations of integer records, column by column: their sum is compared to 1e-9 relative "
@@ -190,9 +191,10 @@ def run_case(case):
                              "detail": "%s, path %d: sums=%s total=%s" % (where, p, sums.tolist()[:20], total)})
                 break
             if not st["grid"] and not np.array_equal(Xa[0], np.array(xs, float)):
-                viol.append({"what": "stochastic path (%s) does not start at the assigned initial state" % name, "signature": "path-start:%s" % st["mode"],
-                             "detail": "%s, path %d: first record %s" % (where, p, Xa[0].tolist())})
-                break
+                # not what C10 states (the total is judged above, against the total of the ASSIGNED state); the model's path
+                # starts at the assigned state: a broken correspondence
+                tags.append("side_effect:path-start")
+                mism.append({"what": "pure-model:path-start", "detail": "%s, path %d: first record %s" % (where, p, Xa[0].tolist())})
             # the real path is the model's path for the same counts
             if not st["grid"] and J is not None and len(J[p]) and np.all(Xa == np.round(Xa)):
                 steps = [[int(round(float(np.asarray(c).ravel()[0]))) for c in row] for row in J[p]]
@@ -204,16 +206,18 @@ def run_case(case):
                  "x0_form:" + st["x0_form"], "time:" + st["time"]["kind"]]
         if st["scale"] > 1: tags.append("large_population")
         # what the caller handed over and what the model holds are what they were
+        # (side effects the pure model excludes but C10 does not state: tag + broken correspondence, never a violation)
         for label, obj, snap in handed:
             if not SC._same_obj(obj, snap):
-                viol.append({"what": "an object the caller passed in was written to", "signature": "caller-argument-modified:%s" % st["mode"],
+                tags.append("side_effect:caller-argument-modified")
+                mism.append({"what": "pure-model:caller-argument-modified",
                              "detail": "%s: %s now %s, was %s" % (where, label, np.asarray(obj).tolist(), np.asarray(snap).tolist())})
                 handed = [h for h in handed if h[1] is not obj]
                 break
         held = np.asarray(model.initial_state, float).ravel()
         if not np.array_equal(held, np.array(xs, float)):
-            viol.append({"what": "the initial state held by the model is no longer the one that was assigned", "signature": "initial-state-modified:%s" % st["mode"],
-                         "detail": "%s: model.initial_state=%s" % (where, held.tolist())})
+            tags.append("side_effect:initial-state-modified")
+            mism.append({"what": "pure-model:initial-state-modified", "detail": "%s: model.initial_state=%s" % (where, held.tolist())})
     # every path of every call, again, after all the calls that followed
     for where, sig, X, total, tol, then in kept:
         for p, Xr in enumerate(X):
